@@ -8,7 +8,7 @@ CHECKS = {
    note="Trusted: solang-parser 0.1.18 (parse tree and locations), rustc exhaustiveness checking of the reference conversion. Bounded by path length; programs beyond it are not explored.",
    technique="bounded-exhaustive input-space enumeration (small-scope model checking) of the implementation against a reference traversal; generator traces validated against the parser"),
  "C02": dict(engine="c02+refdet+layout", ref="7/C02, 6, 8",
-   text="(a) Exhaustive enumeration of all texts of length <= 6 (quick) / 8 (thorough) over {a, é, LF, CR, space} x every offset at which a token can start, plus all token offsets of Σ_small under the layout space Λ, through the real get_line_number, against 1 + #LF before the offset computed by the harness. (b) Σ x 30 detectors on the one-token-per-line layout: every reported line must be an admissible anchor (first token) of a construct the reference detectors know, never an interior token. The conversion is a function of (text, offset) whose defects are local (last line, CR, multi-byte), so a complete small alphabet decides it.",
+   text="(a) Exhaustive enumeration of all texts of length <= 6 (quick) / 8 (thorough) over {a, é, LF, CR, space} x every offset at which a token can start, plus all token offsets of Σ_small under the layout space Λ, through the real get_line_number, against 1 + #LF before the offset computed by the harness. (b) Σ x 30 detectors on the one-token-per-line layout: every reported line must be an admissible anchor (first token) of a construct the reference detectors know, never an interior token (with no gray construct in the program and as many reported lines as canonical constructs, the lines must be exactly the anchor lines). (c) Equal-length re-layouts (blank vs line feed at one gap) analysed back to back on one thread. (d) The same layouts, including leading white space, through analyze_dir. The conversion is a function of (text, offset) whose defects are local (last line, CR, multi-byte), so a complete small alphabet decides it.",
    note="Trusted: solang-parser locations; the harness's own line counting (1 + number of LF bytes). Bounded by text length and by Σ.",
    technique="bounded-exhaustive enumeration of texts x offsets and of programs x detectors against a reference line model"),
  "C04": dict(engine="c04", ref="7/C04",
@@ -20,7 +20,7 @@ CHECKS = {
    note="Trusted: the reference definitions of DESIGN.md section 8 (gray forms accepted either way), solang-parser. Bounded by path length.",
    technique="bounded-exhaustive input-space enumeration of the implementation against three-valued reference detectors"),
  "C17": dict(engine="c17+layout", ref="7/C17, 6",
-   text="Σ_small (thorough: plus thinned Σ_B(2)/Σ_A(1)) x the layout space Λ: 27 uniform layouts, 3 tight layouts, every single-gap deviation with each of 8 separators (blank, LF, CRLF, tab, blank lines, block/line comments with code-like text and multi-byte characters); thorough adds all gap pairs on programs of <= 25 tokens. For each detector the tokens flagged on the canonical layout must be exactly the tokens flagged in every layout, lines being recomputed by the harness; all 30 detectors run on the uniform layouts so that comment text can never create a finding.",
+   text="Σ_small (thorough: plus thinned Σ_B(2)/Σ_A(1)) x the layout space Λ: 27 uniform layouts, 3 tight and 3 compact layouts (no separator where the lexer needs none), 16 layouts with leading white space, every single-gap deviation with each of 8 separators (blank, LF, CRLF, tab, blank lines, block/line comments with code-like text and multi-byte characters); thorough adds all gap pairs on programs of <= 25 tokens. For each detector the tokens flagged on the canonical layout must be exactly the tokens flagged in every layout, lines being recomputed by the harness; all 30 detectors run on the uniform layouts so that comment text can never create a finding; the uniform layouts are also checked through analyze_dir.",
    note="Trusted: the harness's line computation; every layout is re-parsed to validate token preservation. Comments are not placed inside pragma directives (lexer mode).",
    technique="exhaustive enumeration of layouts with bounded deviations (0,1,2) from the default layout, differential oracle against the canonical layout"),
  "C06": dict(engine="refdet+csem", ref="7/C06, 8.12-8.16",
@@ -48,11 +48,11 @@ CHECKS = {
    note="Trusted: nothing beyond the detectors themselves: the oracle is differential (same detector on the blanked files). Bounded to 3 items from the pool.",
    technique="bounded-exhaustive enumeration of item sequences with a differential (compositionality) oracle"),
  "C03": dict(engine="fsx", ref="7/C03, 9, 10",
-   text="Explicit-state exploration of (directory tree, listing order, pattern list): all trees with <= 4 (quick) / 6 (thorough) entries and depth <= 2 over files with findings for one / two patterns, blank files, finding-free files, ineligible files and same-named files with identical or shifted line sets, x EVERY permutation of EVERY directory's listing (owned through the cfg-guarded read_dir seam) x pattern lists (one, two in both orders, thorough: all), through the real analyze_dir of all three categories; oracle: sorted multiset of (file, line set) per pattern obtained by analysing each eligible file alone. Trees of <= 3 entries are replayed against the unhooked binary on tmpfs with a creation history that yields each root listing order (verified by reading the directory back), the report parsed back and compared.",
+   text="Explicit-state exploration of (directory tree, listing order, pattern list): all trees with <= 4 (quick) / 6 (thorough) entries and depth <= 2 over files with findings for one / two patterns, blank files, finding-free files, ineligible files and same-named files with identical or shifted line sets, x EVERY permutation of EVERY directory's listing (owned through the cfg-guarded read_dir seam) x pattern lists (one, two in both orders, thorough: all), through the real analyze_dir of all three categories; sub-directories may be named like source files (lib.sol); in-process histories rewrite a file in place with other content of the same or another length between two analyses; oracle: sorted multiset of (file, line set) per pattern obtained by analysing each eligible file alone. Trees of <= 3 entries are replayed against the unhooked binary on tmpfs with a creation history that yields each root listing order (verified by reading the directory back), the report parsed back and compared.",
    note="Trusted: the seam returns the real entries in the requested order; tmpfs listing order is verified per state, unobtainable orders are counted, not assumed. Bounded by tree size and depth.",
    technique="explicit-state enumeration of environment answers (directory listing orders) and tree shapes against a per-file reference; hook-free replay of states on the real binary"),
  "C11": dict(engine="report", ref="7/C11",
-   text="Findings maps as the analyser can produce them: all 16 vulnerability subsets x 1..3 files x name/line variants, all 8 QA subsets, optimisation singletons, all 253 pairs, full and empty maps, repeated file names with overlapping / identical line sets, all 8 category-presence combinations; file names with blanks, colons, non-ASCII, list-item and heading look-alikes; rendered through generate_vulnerability_report / generate_optimization_report / generate_qa_report and, in a scratch working directory, generate_report with the file read back. Oracle: tolerant parse-back (section texts taken from get_*_report_section of the same build): per pattern multiset(entries) = multiset(findings), section present exactly when the pattern has findings, no entry before the first section, a report file exists.",
+   text="Findings maps as the analyser can produce them: all 16 vulnerability subsets x 1..3 files x name/line variants, all 8 QA subsets, optimisation singletons, all 253 pairs, full and empty maps, repeated file names with overlapping / identical line sets, keys without findings (empty file lists, empty line sets), all 8 category-presence combinations; file names with blanks, colons, non-ASCII, HTML / markdown characters, list-item and heading look-alikes; the report of the previous rendering stays in the working directory (a history); rendered through generate_vulnerability_report / generate_optimization_report / generate_qa_report and, in a scratch working directory, generate_report with the file read back. Oracle: tolerant parse-back (section texts taken from get_*_report_section of the same build): per pattern multiset(entries) = multiset(findings), section present exactly when the pattern has findings, no entry before the first section, a report file exists.",
    note="Trusted: the parse-back assumes only what the property states (list-item lines 'name:line', split at the last colon, attributed to the last preceding section text). Bounded: <= 3 files per pattern.",
    technique="exhaustive enumeration of findings maps (pattern subsets x multiplicities) with a parse-back round-trip oracle"),
  "C12": dict(engine="report", ref="7/C12",
@@ -60,7 +60,7 @@ CHECKS = {
    note="Trusted: severity table from the property text; tolerant heading/total recognition.",
    technique="exhaustive enumeration of findings maps with recount / heading-structure oracles on the rendered report"),
  "C13": dict(engine="report+fsx", ref="7/C13",
-   text="For every findings set (all 15 non-empty vulnerability subsets, all 7 QA subsets, optimisation windows of 2..4 (5) patterns) ALL n! iteration orders a HashMap can present are witnessed by constructing fresh maps (varying hasher instance, insertion order, capacity) until each order has appeared, crossed with all permutations of each pattern's file vector (same file name with different line sets included); every state is rendered by the real generate_*_report and all renderings of one set must be byte-identical. Directory level: analyze_dir + generate_report under every listing permutation of every directory (seam) and every order of the configured patterns. Binary level (sampled, labelled): three runs of the unhooked binary on one directory.",
+   text="For every findings set (all 15 non-empty vulnerability subsets, all 7 QA subsets, optimisation windows of 2..4 (5) patterns) ALL n! iteration orders a HashMap can present are witnessed by constructing fresh maps (varying hasher instance, insertion order, capacity) until each order has appeared, crossed with all permutations of each pattern's file vector (same file name with different line sets included); every state is rendered by the real generate_*_report and all renderings of one set must be byte-identical. Directory level: analyze_dir + generate_report under every listing permutation of every directory (seam) and every order of the configured patterns, each rendering on a fresh OS thread, with a long stale report planted before the second rendering, over trees with equal-length sibling files and identical copies. Binary level (sampled, labelled): three runs of the unhooked binary on one directory.",
    note="Hash seeds are not enumerated; the iteration orders they induce are, completely, for n <= 4 (5) keys. The binary re-run is a sampled confirmation only.",
    technique="explicit-state enumeration of nondeterminism sources (all map iteration orders, all discovery and listing orders) with a byte-equality oracle"),
  "C16": dict(engine="fsx", ref="7/C16",
@@ -68,7 +68,7 @@ CHECKS = {
    note="Names containing '.t.sol' case-insensitively not as a suffix while ending in '.sol' are left out (the property does not classify them).",
    technique="explicit-state enumeration of directory contents and listing orders with predicate + differential ('as if absent') oracles"),
  "C14": dict(engine="binx", ref="7/C14",
-   text="Name level: every pattern name parsed at run time from docs/identified-*.md, README.md and Solstat.toml x every letter casing (all 2^k casings for names of <= 12 (quick) / 22 (thorough) letters, otherwise Hamming balls of radius 2 / 3 around all-lower and all-upper plus alternating and every lower/upper split) through str_to_optimization / str_to_vulnerability / str_to_qa under catch_unwind: accepted, same pattern as the lower-case name, distinct names -> distinct patterns, every default pattern named. Binary level (unhooked binary, corpus directory with one file per pattern, each verified to have a finding of its own): no --toml, every singleton in up to 4 casings, ordered pairs within a category, cross-category triples, empty lists: the report's sections are exactly the selection; directory resolution over 5 --path values x 4 toml paths x ./contracts present/absent; unknown names (10 strings x 3 lists x 3 positions x pre-existing report or not): non-zero exit and the report neither created nor modified.",
+   text="Name level: every pattern name parsed at run time from docs/identified-*.md, README.md and Solstat.toml x every letter casing (all 2^k casings for names of <= 12 (quick) / 22 (thorough) letters, otherwise Hamming balls of radius 2 / 3 around all-lower and all-upper plus alternating and every lower/upper split) through str_to_optimization / str_to_vulnerability / str_to_qa under catch_unwind: accepted, same pattern as the lower-case name, distinct names -> distinct patterns, every default pattern named. Binary level (unhooked binary, corpus directory with one file per pattern, each verified to have a finding of its own): no --toml (also with stray Solstat.toml files in the working and analysed directories), every singleton in up to 4 casings, ordered pairs within a category, cross-category triples, empty lists: the report's sections are exactly the selection; directory resolution over 5 --path values x 4 toml paths x ./contracts present/absent; unknown names (10 strings x 3 lists x 3 positions, plus names valid for another list and listed there, x pre-existing report or not): non-zero exit and the report neither created nor modified.",
    note="Trusted: the documentation parser (markdown table first column, toml string arrays); report sections recognised by the section texts of the same build. A toml file without 'path' is outside the explored space (the struct requires it).",
    technique="exhaustive enumeration of configurations (names x casings, selections, flag/file/default combinations, unknown-name placements) against the real binary and the real name tables"),
  "C15": dict(engine="c15", ref="7/C15",
@@ -76,7 +76,7 @@ CHECKS = {
    note="Interleavings are explored at call granularity; that is complete as long as the source scan (reported in the evidence) finds no shared-state construct in /repo/src. If a change introduces shared state, leaks visible sequentially or at call granularity are still found; interleavings inside a call are probed only by the sampled free-running run.",
    technique="explicit-state exploration of call histories and of all call-level thread interleavings under a controlled scheduler (baton), differential oracle against fresh-process results"),
  "C18": dict(engine="binx", ref="7/C18",
-   text="Breadth-first exploration of run histories of the unhooked binary, length <= 3 (quick) / 4 (thorough), over 16 actions: run from a working directory outside the tree / the parent of the analysed directory / the analysed directory itself; edit the tree (add, change, remove a .sol file, make it finding-free); plant a left-over solstat_report.md (unrelated bytes, 1 MB, a longer stale report) in any of the three working directories. After every run the whole scratch root is byte-compared with its snapshot before the run: only <cwd>/solstat_report.md may be created or replaced, it must exist, and it must be byte-identical to the report of a run on a fresh copy of the current tree from a clean working directory (so a stale report is overwritten, not appended to, and never influences the result).",
+   text="Breadth-first exploration of run histories of the unhooked binary, length <= 3 (quick) / 4 (thorough), over 21 actions: run from a working directory outside the tree / the parent of the analysed directory / the analysed directory itself / a sub-directory of it / the parent through a --toml file that lives elsewhere and names the tree relatively; edit the tree (add, change, remove a .sol file, make it finding-free); plant a left-over solstat_report.md (unrelated bytes, 1 MB, a longer stale report) in any of the three working directories. After every run the whole scratch root is byte-compared with its snapshot before the run: only <cwd>/solstat_report.md may be created or replaced, it must exist, and it must be byte-identical to the report of a run on a fresh copy of the current tree from a clean working directory (so a stale report is overwritten, not appended to, and never influences the result).",
    note="Byte equality with the fresh run relies on deterministic rendering (C13). strace corroboration is not used for any verdict.",
    technique="explicit-state (BFS) exploration of operation histories of the real binary with file-system snapshot invariants and a fresh-run differential oracle"),
 }
